@@ -2,13 +2,13 @@
 Model: lean/RedisGoModel/Exec/{Core,StringKeys,Dispatch}.lean; tie: exec engine (server.Manager.ExecCommand + VerifDump hook)."""
 import random
 
-from .. import core, execgen, execsuite
+from .. import core, execgen, execsuite, families
 
 
 def run(R, ctx):
     execsuite.run_exec_suite(
         R, ctx, name="strings-keys",
-        gens=[(1, execgen.string_cmd)],
+        gens=[(8, execgen.string_cmd)] + [(1, g) for _, g in families.all_gens()[1:]],   # other families only to create keys of other types
         nprog=(400, 6000), corpus="exec_c01",
         what="string and generic key commands (SET with every option combination, GET, MSET, MGET, SETNX, SETEX, APPEND, STRLEN, GETRANGE, "
              "SETRANGE, INCR family, DEL, EXISTS, TYPE, RENAME, KEYS, PING, EXPIRE, PERSIST, TTL)")
